@@ -690,6 +690,12 @@ func (g *Gen) perturb(s []int, alphabet []int) []int {
 func (g *Gen) Inputs(t *Tree, n, maxLen int, alphabet []int) [][]int {
 	seen := map[string]bool{}
 	var res [][]int
+	// a pattern whose matches are longer than the bound (fixed counts beyond the analyzers' cut-offs) gets room for one match
+	var one []int
+	g.sampleMatch(t, &one, map[*Tree][]int{})
+	if len(one)+3 > maxLen {
+		maxLen = min(len(one)+3, 48)
+	}
 	for tries := 0; len(res) < n && tries < n*6; tries++ {
 		var s []int
 		switch g.pick(9) {
